@@ -36,10 +36,14 @@ Definition wBufSlice b s e := OBufSlice (n_ b) s e.
 Definition wGoWrite b i x := OGoWrite (n_ b) i (Z.to_N x).
 Definition wDetach b := ODetach (n_ b).
 Definition wLens v := OLens (n_ v).
+Definition sN (m e : Z) : sval := SNum (to_bits (dec m e)).
+Definition wIncludes v x (f : option iarg) := OIncludes (n_ v) x f.
+Definition wIndexOf v x (f : option iarg) := OIndexOf (n_ v) x f.
+Definition wLastIndexOf v x (f : option iarg) := OLastIndexOf (n_ v) x f.
 
 Inductive ores :=
 | XUndef | XNum (m e : Z) | XBig (z : Z) | XErr (e : err) | XPanic | XOther
-| XNew (len : Z) | XLens (a b c : Z).
+| XNew (len : Z) | XLens (a b c : Z) | XBool (b : bool).
 
 (* one step: result, "all canary bytes around every Go-supplied buffer are intact", a 32-bit
    polynomial hash of the memory of all buffers (-1: same as at the previous step), and the bit mask
@@ -84,6 +88,7 @@ Definition res_match (o : ores) (r : res) : bool :=
   | XNew a, RNewView n => a =? n
   | XNew a, RNewBuf n => a =? n
   | XLens a b c, RLens x y z => (a =? x) && (b =? y) && (c =? z)
+  | XBool a, RBool b => Bool.eqb a b
   | _, _ => false
   end.
 
